@@ -69,7 +69,7 @@ def lit(v):
     if isinstance(v, D):
         s = format(v, 'f')
         if '.' not in s:
-            s += '.0'
+            s += '.'
         return s if v >= 0 and not v.is_signed() else f'(-{s[1:]})'
     if isinstance(v, str):
         assert "'" not in v
